@@ -230,7 +230,10 @@ def enter (m : VM) (codeId : String) (free : List Nat) (args : List VVal) (kont 
     else
       -- defaults for the missing trailing parameters
       let missing := c.defaults.drop args.length
-      if missing.any Option.isNone then .error (.err "args")
+      -- `object.NewFunction` counts only non-nil Go values as defaults, and the compiler stores a `nil`
+      -- literal default as Go nil: a parameter written `p=nil` is REQUIRED at run time (finding
+      -- C01-nil-default-ignored; the reference semantics binds nil)
+      if missing.any (fun d => match d with | none => true | some .nilLit => true | some _ => false) then .error (.err "args")
       else
         let dvals := missing.map fun d => match d with
           | some (.int i) => VVal.int i
